@@ -29,10 +29,15 @@ fn header_acc(name: &str, h: &Header) -> i64 {
         "vcp_supplemental_data_mpda_vcp" => h.vcp_supplemental_data_mpda_vcp() as i64,
         "vcp_supplemental_data_base_tilt_vcp" => h.vcp_supplemental_data_base_tilt_vcp() as i64,
         "vcp_supplemental_data_base_tilts" => h.vcp_supplemental_data_base_tilts() as i64,
-        "doppler_velocity_resolution" => h.doppler_velocity_resolution_meters_per_second().map(|v| scaled(v, 2.0)).unwrap_or(-1),
+        "doppler_velocity_resolution" => { let (a, u) = (h.doppler_velocity_resolution_meters_per_second().map(|v| scaled(v, 2.0)).unwrap_or(-1), h.doppler_velocity_resolution().map(|v| scaled(v.get::<uom::si::velocity::meter_per_second>(), 2.0)).unwrap_or(-1)); if a == u { a } else { -996 } }
         _ => -999,
     }
 }
+
+/// The plain and the unit-typed accessor of one field must agree (-996 otherwise: no specification value is negative below -1).
+/// (uom keeps angles in radians: the unit-typed value comes back through a multiplication and a division by pi/180, so
+/// agreement is up to that rounding, not bit for bit)
+fn both(plain: f64, unit_typed: f64, den: f64) -> i64 { if (plain - unit_typed).abs() <= 1e-9 * (1.0 + plain.abs()) { scaled(plain, den) } else { -996 } }
 
 fn cut_acc(name: &str, c: &ElevationDataBlock) -> i64 {
     match name {
@@ -46,12 +51,12 @@ fn cut_acc(name: &str, c: &ElevationDataBlock) -> i64 {
         "supplemental_data_mrle_sequence_number" => c.supplemental_data_mrle_sequence_number() as i64,
         "supplemental_data_mpda_cut" => c.supplemental_data_mpda_cut() as i64,
         "supplemental_data_base_tilt_cut" => c.supplemental_data_base_tilt_cut() as i64,
-        "elevation_angle" => scaled(c.elevation_angle_degrees(), 4096.0),
-        "sector_1_edge_angle" => scaled(c.sector_1_edge_angle_degrees(), 4096.0),
-        "sector_2_edge_angle" => scaled(c.sector_2_edge_angle_degrees(), 4096.0),
-        "sector_3_edge_angle" => scaled(c.sector_3_edge_angle_degrees(), 4096.0),
-        "ebc_angle" => scaled(c.ebc_angle_degrees(), 4096.0),
-        "azimuth_rate" => scaled(c.azimuth_rate_degrees_per_second(), 4096.0),
+        "elevation_angle" => both(c.elevation_angle_degrees(), c.elevation_angle().get::<uom::si::angle::degree>(), 4096.0),
+        "sector_1_edge_angle" => both(c.sector_1_edge_angle_degrees(), c.sector_1_edge_angle().get::<uom::si::angle::degree>(), 4096.0),
+        "sector_2_edge_angle" => both(c.sector_2_edge_angle_degrees(), c.sector_2_edge_angle().get::<uom::si::angle::degree>(), 4096.0),
+        "sector_3_edge_angle" => both(c.sector_3_edge_angle_degrees(), c.sector_3_edge_angle().get::<uom::si::angle::degree>(), 4096.0),
+        "ebc_angle" => both(c.ebc_angle_degrees(), c.ebc_angle().get::<uom::si::angle::degree>(), 4096.0),
+        "azimuth_rate" => both(c.azimuth_rate_degrees_per_second(), c.azimuth_rate().get::<uom::si::angular_velocity::degree_per_second>(), 4096.0),
         "reflectivity_threshold" => scaled(c.reflectivity_threshold(), 8.0),
         "velocity_threshold" => scaled(c.velocity_threshold(), 8.0),
         "spectrum_width_threshold" => scaled(c.spectrum_width_threshold(), 8.0),
